@@ -199,6 +199,47 @@ func (d *c11DFS) explore(n *c11Node, depth int) {
 	}
 }
 
+// c11LongSuffix: deletion removes the whole pending suffix however long it is (and nothing if any of it is final).
+func c11LongSuffix(run *mon.Run) {
+	run.Declare("C11.long_suffix_deleted_entirely", 4)
+	for _, n := range []int{65, 70, 130, 257} {
+		for _, finalPrefix := range []int{0, 3} {
+			period := 50 * time.Second
+			env := newL1EnvAt(1, []time.Duration{period}, time.Unix(1_700_000_000, 0).UTC())
+			roles := env.Bridges[1]
+			for i := 1; i <= n; i++ {
+				if i == finalPrefix+1 && finalPrefix > 0 {
+					env.L1.NextBlock(period + time.Second) // outputs 1..finalPrefix are final from here on
+				}
+				r := c11Root(uint64(i), uint64(i*10), 0)
+				if res := env.L1.Deliver(ophosttypes.NewMsgProposeOutput(roles.Proposer.String(), 1, uint64(i), uint64(i*10), r[:])); res.Class != sim.OK {
+					panic(res.ErrString())
+				}
+			}
+			from := uint64(finalPrefix + 1)
+			if finalPrefix == 0 {
+				from = 2
+			}
+			res := env.L1.Deliver(ophosttypes.NewMsgDeleteOutput(roles.Challenger.String(), 1, from))
+			idx, _ := c11ReadLog(env.L1, 1)
+			next, _ := env.L1.K.GetNextOutputIndex(env.L1.Ctx, 1)
+			run.Evaluations++
+			ok := res.Class == sim.OK && next == from && uint64(len(idx)) == from-1
+			for i, x := range idx {
+				ok = ok && x == uint64(i+1)
+			}
+			tr := []string{fmt.Sprintf("%d outputs proposed (the first %d final); delete from %d -> %s %s; next index %d, %d outputs stored", n, finalPrefix, from, res.Class, res.ErrString(), next, len(idx))}
+			run.Check("C11.long_suffix_deleted_entirely", ok, "c11.long_suffix", tr, "deleting the %d pending outputs from index %d left %d outputs stored and next index %d", n-int(from)+1, from, len(idx), next)
+			if finalPrefix > 0 {
+				// a range that starts inside the final prefix is refused as a whole
+				r2 := env.L1.Deliver(ophosttypes.NewMsgDeleteOutput(roles.Challenger.String(), 1, 1))
+				run.Check("C11.long_suffix_deleted_entirely", r2.Class != sim.OK, "c11.final_output_deleted_by_long_range", append(tr, fmt.Sprintf("then delete from 1 -> %s", r2.Class)), "a deletion starting at a final output was accepted")
+			}
+			run.Distinct(fmt.Sprintf("C11/longsuffix/%d/%d", n, finalPrefix))
+		}
+	}
+}
+
 func c11Exhaustive(run *mon.Run, depth int) {
 	for _, c := range []string{"C11.exhaustive.log_equals_model", "C11.exhaustive.next_index", "C11.exhaustive.final_prefix", "C11.exhaustive.last_finalized_query", "C11.exhaustive.propose_decision", "C11.exhaustive.delete_decision", "C11.exhaustive.other_bridge_untouched"} {
 		run.Declare(c, 50)
@@ -225,6 +266,7 @@ func checkC11(run *mon.Run, rng *mon.Rand, thorough bool) {
 	for _, c := range []string{"C11.contiguous", "C11.l2_blocks_increase", "C11.l1_times_monotone", "C11.log_matches_model", "C11.final_prefix", "C11.propose_only_at_next", "C11.propose_higher_l2_block", "C11.delete_sets_next"} {
 		run.Declare(c, 10)
 	}
+	c11LongSuffix(run)
 	c11Exhaustive(run, pick(thorough, 5, 6))
 	hist := pick(thorough, 24, 300)
 	steps := pick(thorough, 250, 500)
